@@ -96,7 +96,9 @@ func closedBefore(at ssa.Instruction) map[string]ssa.Instruction {
 			return
 		}
 		if b, ok := c.Call.Value.(*ssa.Builtin); ok && b.Name() == "close" && len(c.Call.Args) == 1 {
-			if instrDominates(in, at) {
+			// on every branch-consistent path (a flag may be tested once around the close and once
+			// more for the early return)
+			if instrDominates(in, at) || mustPrecede(fn, []ssa.Instruction{in}, at) {
 				if n := chanName(c.Call.Args[0], nil, 0); n != "" {
 					out[n] = in
 				}
